@@ -160,7 +160,7 @@ def run():
         # a case that differs inside a shared process is re-run alone before it is blamed
         seen, alone = set(), []
         for c, opt, ctx in suspects:
-            if (c["key"], opt) not in seen and len(alone) < 300:
+            if (c["key"], opt) not in seen and len(alone) < (160 if thorough else 80):
                 seen.add((c["key"], opt))
                 alone.append((c, opt, ctx))
         if alone:
